@@ -1,7 +1,7 @@
 (* C02 -- Type soundness: accepted programs never hit dynamic type errors.
    Only pinned statements, `exact`, Examples / refutation witnesses by vm_compute, and Print Assumptions. *)
 From Coq Require Import String List NArith ZArith PArith Bool FMapPositive.
-From Sylt Require Import Syntax.Resolved Types.TyGraph Types.Tc Types.TcInv Types.SoundE0 Types.SoundE1.
+From Sylt Require Import Syntax.Resolved Types.TyGraph Types.Tc Types.TcInv Types.SoundE0 Types.SoundE1 Types.SoundE2.
 Import ListNotations.
 Local Open Scope string_scope.
 
@@ -57,6 +57,31 @@ Proof. exact SoundE1.typed_run1. Qed.
    extension of the state keeps it *)
 Theorem C02_env_invariant : forall E s s', wf s -> ext s s' -> env_ok E s -> env_ok E s'.
 Proof. exact SoundE1.env_ok_ext. Qed.
+
+(* C02_E2.  The blocks of C02_E1 with tuples: construction `(e1, .., en)` from base-typed components, constant index
+   `t[i]`, == != < > between tuples, if-expressions whose branches are tuples, tuples in local variables.  The fragment is
+   delimited by a shape analysis (base / n-tuple; `frag2`, computable, does not look at types): operands of arithmetic and
+   boolean operators are base-shaped, both operands of a comparison / both branches of an if have one shape, an index is
+   applied to a tuple shape and is in range.  If the checker accepts such a block, the tagged evaluator (values: base values
+   and tuples of base values) is not stuck, and the tag of the result -- a base type or the list of the components' base
+   types -- is the type of the class of the block's value: `has_ty`, a tuple class whose component classes have the
+   components' base types (kept by every extension of the graph: C03_component_keeps_leaf_type). *)
+Theorem C02_E2 : forall farith fneg fcmp of_int scmp kinds g f ctx sp ss (e : e2) s r ov s',
+  frag2 [] ss e = true -> wf s ->
+  expression_block (gfix g) (afix kinds (gfix g) f) sp (to_block2 sp ss e) ctx s = Ok ((r, ov), s') ->
+  exists v t c, run2 farith fneg fcmp of_int scmp [] ss e = Some v /\ tag2 v = t /\ ov = Some c /\ has_ty s' c t.
+Proof. exact SoundE2.C02_E2. Qed.
+
+Theorem C02_accepted_block_typed2 : forall kinds g sp ss e f ctx s r ov s',
+  frag2 [] ss e = true -> wf s ->
+  expression_block (gfix g) (afix kinds (gfix g) f) sp (to_block2 sp ss e) ctx s = Ok ((r, ov), s') ->
+  exists t v, ty_block2 [] ss e = Some t /\ ov = Some v /\ has_ty s' v t.
+Proof. exact SoundE2.accepted_block2. Qed.
+
+Theorem C02_typed_block_sound2 : forall farith fneg fcmp of_int scmp ss E r e t,
+  store_ok2 E r -> ty_block2 E ss e = Some t ->
+  exists v, run2 farith fneg fcmp of_int scmp r ss e = Some v /\ tag2 v = t.
+Proof. exact SoundE2.typed_run2. Qed.
 
 (* The full statement - every accepted program without externals runs without a dynamic type error - is
    not proved, and it is FALSE of the model as it is of the code: the first program below is accepted by the
@@ -147,7 +172,38 @@ Example C02_example_block_rejected :
   | Err e _ => e_kind e | _ => KExotic end = KMismatch.
 Proof. vm_compute. reflexivity. Qed.
 
+(* ---- non-vacuity of C02_E2:  p := (1, 2.5) ; q :: (if p[0] < 2 do p else (3, 0.5) end) ; p == q *)
+Definition blk2 : list s2 :=
+  [D2 1 Mutable (T2 [I2 1; F2 "2.5"]);
+   D2 2 Const (If2 (Bin2 Less (Ix2 (R2 1) 0) (I2 2)) (R2 1) (T2 [I2 3; F2 "0.5"]))].
+Definition res2 : e2 := Bin2 Equals (R2 1) (R2 2).
+
+Example C02_example_tuple_block_in_fragment : frag2 [] blk2 res2 = true.
+Proof. reflexivity. Qed.
+
+Example C02_example_tuple_block_accepted :
+  match (init_vars 3 ;;; expression_block (gfix 40) (afix kinds1 (gfix 40) 40) sp0 (to_block2 sp0 blk2 res2) ctx_new)%tc empty_st with
+  | Ok _ => true | _ => false end = true.
+Proof. vm_compute. reflexivity. Qed.
+
+Example C02_example_tuple_block_runs :
+  run2 (fun _ a _ => a) (fun a => a) (fun _ a b => String.eqb a b) (fun _ => "") (fun _ _ _ => true) [] blk2 res2
+  = Some (V0 (VBool true)).
+Proof. vm_compute. reflexivity. Qed.
+
+(* ill-typed: (1, 2) == (1, "a") and (1, 2)[2] are rejected *)
+Example C02_example_tuple_rejected :
+  match (init_vars 3 ;;; expression_block (gfix 40) (afix kinds1 (gfix 40) 40) sp0
+           (to_block2 sp0 [] (Bin2 Equals (T2 [I2 1; I2 2]) (T2 [I2 1; S2 "a"]))) ctx_new)%tc empty_st,
+        (init_vars 3 ;;; expression_block (gfix 40) (afix kinds1 (gfix 40) 40) sp0
+           (to_block2 sp0 [] (Ix2 (T2 [I2 1; I2 2]) 2)) ctx_new)%tc empty_st with
+  | Err e _, Err e' _ => (e_kind e, e_kind e') | _, _ => (KExotic, KExotic) end = (KMismatch, KTupleIndexOutOfRange).
+Proof. vm_compute. reflexivity. Qed.
+
 Print Assumptions C02_E0.
+Print Assumptions C02_E2.
+Print Assumptions C02_accepted_block_typed2.
+Print Assumptions C02_typed_block_sound2.
 Print Assumptions C02_E1.
 Print Assumptions C02_accepted_block_typed.
 Print Assumptions C02_typed_block_sound.
